@@ -46,6 +46,10 @@ CHECKS = {
    "deterministic simulation (fault-free configuration) with before/after compaction differential",
    "Histories ending in (and containing) compactions; around every compaction the full stored contents and the hit sets of a probe battery (term, phrase, prefix, query_string, keyword/range filters, nested filters incl. Not inside Nested and nested-in-nested) are compared before/after; one segment afterwards; the unsafe schema profile must be refused with files, manifest and results unchanged.",
    "Input corner cases (null/empty/multi-valued) come from the document generator only; simulation contributes the history dimension.", "3 C14"),
+ "C17": ("corrupt", "fault_enumeration",
+   "deterministic simulation: media-fault enumeration on the simulated disk between sessions",
+   "Small generated indexes (1-3 segments, deletions, non-empty log) are closed, then every file is altered - single-byte xor with masks 01/02/10/80/FF at every offset and every truncation length in the thorough tier, a PRNG sample per file in the quick tier - and reopened with the real code: open+reader+match_all+probe battery must fail or return exactly the uncorrupted results; for wal.log a new writer may recover only a prefix of the queue; never a panic.",
+   "One media fault at a time; dead bytes (no observable change) are not violations.", "3 C17"),
  "C28": ("model", "exploration",
    "deterministic simulation with a path monitor on the file-system seam",
    "Relocate is a generated operation: the index directory is copied inside SimFs, the original kept / emptied / removed, the copy opened and the history continues (search, add, commit, compaction); contents must equal the model, no FS primitive may touch a path outside the new root, the original's files must stay byte-identical.",
@@ -68,7 +72,7 @@ def main():
         })
     na = [{"property_id": k, "reason": v} for k, v in sorted(NA.items())]
     pending = {
-"C05": "E2 sched", "C06": "E2 sched", "C17": "E1 corrupt",
+"C05": "E2 sched", "C06": "E2 sched", 
       "C23": "E3 http", "C24": "E3 http", "C27": "E4 idb",
     }
     for k, v in sorted(pending.items()):
